@@ -28,7 +28,14 @@ Wrap(f, t) == IF f.op = "zoom" THEN [op |-> "zoom", min |-> f.min, max |-> f.max
               ELSE [op |-> "bbox", geo |-> f.geo, src |-> t]
 Chains1 == { Wrap(f, b) : f \in Filters, b \in Bases }
 Chains2 == { Wrap(f, t) : f \in Filters, t \in Chains1 }
-Programs == Chains1 \cup (IF MaxChain >= 2 THEN Chains2 ELSE {})
+\* overlays whose sources are themselves filtered (a filtered source advertises EMPTY levels, in whatever internal
+\* representation the filter leaves them; the overlay's coverage must still be the union)
+SmallFilters == { [op |-> "zoom", min |-> -1, max |-> 1], [op |-> "zoom", min |-> 2, max |-> -1], [op |-> "zoom", min |-> 3, max |-> 2],
+                  [op |-> "bbox", geo |-> [L0 |-> 2, w |-> 4, e |-> 8, n |-> 3, s |-> 8]], [op |-> "bbox", geo |-> [L0 |-> 2, w |-> 0, e |-> 1, n |-> 0, s |-> 1]] }
+OverFiltered == { [op |-> "overlay", srcs |-> << Wrap(f1, Leaf(1)), Wrap(f2, Leaf(2)) >>] : f1 \in SmallFilters, f2 \in SmallFilters }
+                \cup { [op |-> "overlay", srcs |-> << Wrap(f1, Leaf(1)), Leaf(2) >>] : f1 \in SmallFilters }
+                \cup { [op |-> "overlay", srcs |-> << Wrap(f2, Wrap(f1, Leaf(1))), Leaf(2) >>] : f1 \in SmallFilters, f2 \in SmallFilters }
+Programs == Chains1 \cup (IF MaxChain >= 2 THEN Chains2 ELSE {}) \cup OverFiltered
 
 \* invalid filter_bbox arguments (raw VPL value text): reversed, out of range, wrong arity, not numbers
 InvalidRaw == { "[10,10,-10,-10]", "[-200,0,10,10]", "[0,-100,10,10]", "[0,0,10]", "[0,0,10,10,20]", "[a,b,c,d]", "[0,0,190,10]", "[0,0,10,95]" }
